@@ -234,6 +234,15 @@ func WorkerMain(prop, part string, tier Tier, seed int64, from, to int, out stri
 		return 3
 	}
 	defer f.Close()
+	// The goroutine dump the parent takes on a hang shows how long a goroutine has been parked only if a
+	// garbage collection ran after it parked (the runtime stamps waitsince during GC), and a wedged worker
+	// allocates nothing: force a collection every few seconds.
+	go func() {
+		for {
+			time.Sleep(5 * time.Second)
+			runtime.GC()
+		}
+	}()
 	var fmu sync.Mutex
 	lastProg := time.Now()
 	prog := func() {
@@ -733,6 +742,12 @@ loop:
 			agg.PerPart[p.Name]--
 		}
 		mu.Unlock()
+	}
+	if ended && werr != nil && p.Race && !hung {
+		// the race detector makes a process that reported races exit with status 66 although every case ended
+		if ee, ok := werr.(*exec.ExitError); ok && ee.ExitCode() == 66 {
+			werr = nil
+		}
 	}
 	if ended && werr == nil {
 		os.Remove(jpath)
